@@ -189,6 +189,7 @@ func stackSignature(dump string, running bool) string {
 	var fns []string
 	n := 0
 	entry, inner := "?", ""
+	count := map[string]int{}
 	for _, line := range strings.Split(best, "\n") {
 		if strings.HasPrefix(line, "\t") || !strings.Contains(line, "seehuhn.de/go/") || strings.Contains(line, "verif/harness") {
 			continue
@@ -208,13 +209,26 @@ func stackSignature(dump string, running bool) string {
 			continue
 		}
 		// the object reader is at the bottom of every stack: it says nothing about the cycle
-		if strings.HasPrefix(fn, "pdf.(*scanner).") || fn == "pdf.(*Reader).Get" || fn == "pdf.(*Reader).get" {
+		// (so is the generic Decode trampoline between any two decoders)
+		if strings.HasPrefix(fn, "pdf.(*scanner).") || fn == "pdf.(*Reader).Get" || fn == "pdf.(*Reader).get" || strings.HasPrefix(fn, "pdf.Decode[") {
 			continue
 		}
+		count[fn]++
 		if !seen[fn] {
 			seen[fn] = true
 			fns = append(fns, fn)
 		}
+	}
+	// a function of the cycle recurs; whatever the innermost call happened to
+	// be when the stack ended does not
+	var recurring []string
+	for _, fn := range fns {
+		if count[fn] >= 3 {
+			recurring = append(recurring, fn)
+		}
+	}
+	if len(recurring) > 0 {
+		fns = recurring
 	}
 	if inner == "" {
 		return "inner=? cycle={} entry=?"
